@@ -12,7 +12,7 @@ cross product of `+ # 0`, fill/align, width × 5 formatters × signs."""
 from genlib import *
 import math
 
-THEOREMS = ["C06_radix_bases_ok", "C06_from_radix_le", "C06_from_radix_be", "C06_ifrom_radix_le", "C06_ifrom_radix_be", "C06_from_str_radix", "C06_ifrom_str_radix", "C06_from_str", "C06_parse_bytes", "C06_to_radix_le_partial", "C06_to_radix_be_partial", "C06_ito_radix_le_partial", "C06_to_str_partial", "C06_ito_str_partial", "C06_to_str_ascii_spec", "C06_to_str_ascii_partial", "C06_fmt_u_partial", "C06_fmt_i_partial", "C06_str_roundtrip_spec", "C06_roundtrip_partial", "C06_iroundtrip_partial", "C06_radix_roundtrip_partial", "C06_from_radix_digits_be", "C06_to_radix_digits_le_partial"]
+THEOREMS = ["C06_radix_bases_ok", "C06_from_radix_le", "C06_from_radix_be", "C06_ifrom_radix_le", "C06_ifrom_radix_be", "C06_from_str_radix", "C06_ifrom_str_radix", "C06_from_str", "C06_parse_bytes", "C06_to_radix_le", "C06_to_radix_be", "C06_ito_radix_le", "C06_to_str", "C06_ito_str", "C06_to_str_ascii_spec", "C06_to_str_ascii", "C06_fmt_u", "C06_fmt_i", "C06_str_roundtrip_spec", "C06_roundtrip", "C06_iroundtrip", "C06_radix_roundtrip", "C06_from_radix_digits_be", "C06_to_radix_digits_le"]
 RULE = "non-trivial: value or slice with >= 2 u64 digits / >= 20 small digits, or a rejected/malformed input"
 
 MAX = (1 << 64) - 1
